@@ -466,8 +466,8 @@ theorem walkNext_keep {cfg : Cfg} {k : Kind} {L : Layout} {h : Hints} (fuel : Na
             · exact .inr ⟨i+1, e1, Nat.lt_succ_self i⟩
             · exact .inr ⟨i2, e1, by omega⟩
 
-/-- a refused slow-path allocation (`AllocError`) keeps `LiveOK` although it may have made a later
-    chunk current -/
+/-- a refused slow-path allocation (`AllocError`) keeps `LiveOK`: the original chunk stays current,
+    only positions of later chunks may have been reset -/
 theorem inAnotherChunk_error_liveOK {cfg : Cfg} {k : Kind} {s s' : State} {L : Layout} {h : Hints} {e : AErr}
     (hl : LiveOK cfg s) (hr : inAnotherChunk cfg k s L h = .ok (s', .error e)) : LiveOK cfg s' := by
   unfold inAnotherChunk at hr
@@ -510,10 +510,8 @@ theorem inAnotherChunk_error_liveOK {cfg : Cfg} {k : Kind} {s s' : State} {L : L
             refine hl.advance (a3.trans hg.1) (fun i0 hi0 j hj => ?_) ?_
             · rw [hcur] at hi0; cases hi0
               rw [a1]; exact k1 j hj
-            · rcases k2 with ⟨e1, _⟩ | ⟨i2, e1, e2⟩
-              · exact .inl (a2.trans e1)
-              · refine .inr ⟨i2, a2.trans e1, fun i0 hi0 => ?_⟩
-                rw [hcur] at hi0; cases hi0; exact e2
+            · -- after the fix c107ca6 the refused request leaves the ORIGINAL chunk current
+              exact .inl hcur.symm
           | ok i3 =>
             simp only at hr
             split at hr
